@@ -16,20 +16,46 @@ import (
 
 type hElem = heapz.Element[int]
 
-// valuesField is the index of Heap's private backing array: the one field of type []*Element[int],
-// whatever it is called (-1: there is no such field, or more than one).
+// valuesField is the index of Heap's private backing array: a field of type []*Element[int]. If
+// there are several (a free list, say), the one called `values`, else the one that holds exactly
+// the pushed elements of a probe heap (-1: none can be told).
 var valuesField = func() int {
 	t := reflect.TypeOf(heapz.Heap[int]{})
-	idx := -1
+	var cand []int
 	for i := 0; i < t.NumField(); i++ {
 		if t.Field(i).Type == reflect.TypeOf([]*hElem(nil)) {
-			if idx >= 0 {
-				return -1
-			}
-			idx = i
+			cand = append(cand, i)
 		}
 	}
-	return idx
+	switch len(cand) {
+	case 0:
+		return -1
+	case 1:
+		return cand[0]
+	}
+	for _, i := range cand {
+		if t.Field(i).Name == "values" {
+			return i
+		}
+	}
+	ph := heapz.New(4, func(a, b int) bool { return a < b })
+	probe := &ph
+	var pushed []*hElem
+	for v := 0; v < 3; v++ {
+		pushed = append(pushed, probe.Push(v))
+	}
+	found := -1
+	for _, i := range cand {
+		f := reflect.ValueOf(probe).Elem().Field(i)
+		got := *(*[]*hElem)(unsafe.Pointer(f.UnsafeAddr()))
+		if len(got) == 3 && got[0] == pushed[0] {
+			if found >= 0 {
+				return -1
+			}
+			found = i
+		}
+	}
+	return found
 }()
 
 // backing returns a copy of the heap's private backing array (the handles in heap order).
